@@ -319,7 +319,7 @@ struct Job {
 
 int main(int argc, char** argv)
 {
-    vx::init(argc, argv, "C41", "exploration", 150, 1500);
+    vx::init(argc, argv, "C41", "exploration", 120, 1350);
     vx::scratch_dir();
     auto& E = vx::ev();
     const bool big = vx::thorough();
